@@ -533,12 +533,16 @@ def finish(ctx):
         "wall_s": round(wall, 2),
         "violations": len(ctx.violations) + (1 if ctx.broken and not ctx.violations else 0),
     }
-    os.makedirs(os.path.join(VERIF, "evidence"), exist_ok=True)
-    tmp = os.path.join(VERIF, "evidence", ".%s.json.%d" % (ctx.prop, os.getpid()))
+    # evidence/ is for runs against /repo itself; a run against a scratch worktree (VERIF_REPO: testing a
+    # patch or a seeded change) or a replay writes its evidence next to the build output instead
+    evdir = os.path.join(VERIF, "evidence") if (os.path.realpath(REPO) == "/repo" and not ctx.replay) \
+        else os.path.join(VERIF, "build", "evidence-scratch")
+    os.makedirs(evdir, exist_ok=True)
+    tmp = os.path.join(evdir, ".%s.json.%d" % (ctx.prop, os.getpid()))
     with open(tmp, "w") as f:
         json.dump(ev, f, indent=1, sort_keys=True)
         f.write("\n")
-    os.replace(tmp, os.path.join(VERIF, "evidence", ctx.prop + ".json"))
+    os.replace(tmp, os.path.join(evdir, ctx.prop + ".json"))
     shutil.rmtree(ctx.build, ignore_errors=True)
     rc = 0
     if ctx.violations:
